@@ -440,7 +440,8 @@ func genFltCase(r *core.Rand) string {
 
 // ---- sites
 
-var siteRemotes = []string{"192.0.2.1:1234", "10.1.2.3:80", "[2001:db8:1:2::abcd:1]:443", "[fe80::1:2%eth0]:9", "10.200.3.4:5555", "[::1]:80"}
+var siteRemotes = []string{"192.0.2.1:1234", "10.1.2.3:80", "[2001:db8:1:2::abcd:1]:443", "[fe80::1:2%eth0]:9", "10.200.3.4:5555", "[::1]:80",
+	"[::ffff:10.9.8.7]:55", "[2001:db8:aa:bb:cc:dd:ee:ff]:8443", "[fe80::abcd:ef01%wlan0]:443", "203.0.113.77:65000", "@", ""}
 
 func genSite(r *core.Rand) *script {
 	sc := &script{creds: r.Chance(1, 4), e: r.Intn(3), hc: r.Pick([]string{"d", "d", "n", "k", "w", "m"}), rw: r.Intn(3),
